@@ -51,7 +51,12 @@ def make_case(rng, tier):
         m = rng.randint(1, 3)
         c['x'], c['y'] = rand_coeffs(rng, (D, P, n), -2, 2), rand_coeffs(rng, (D, P, m), -2, 2)
     else:
+        # every Pade order the library offers, each with a base point inside that order's range
+        q = rng.choice([7, 7, 3, 5, 9, 13])
+        c['q'] = q
+        amp = {3: 0.003, 5: 0.05, 7: 0.5, 9: 0.5, 13: 0.5}[q]
         c['x'] = rand_coeffs(rng, (D, P, n, n), -0.5, 0.5)
+        c['x'][0] = rand_coeffs(rng, (P, n, n), -amp, amp)
     return c
 
 
@@ -149,7 +154,8 @@ def check(ctx, c):
                 return 'logdet: differs from log(det) in Taylor arithmetic'
         return None
     if kind == 'expm':
-        got = algopy.expm(UTPM(x.copy()))
+        q = c.get('q', 7)
+        got = algopy.expm(UTPM(x.copy())) if (q == 7 and D % 2 == 0) else algopy.expm_pade(UTPM(x.copy()), q)
         X = UTPM(x.copy())
         n = x.shape[2]
         term = UTPM(np.zeros((D, P, n, n)))
